@@ -16,6 +16,7 @@ import (
 
 	"github.com/google/inverting-proxy/agent/utils"
 	vserver "github.com/google/inverting-proxy/zz_verif/p/vserver"
+	"github.com/google/inverting-proxy/zz_verif/vctx"
 	"github.com/google/inverting-proxy/zz_verif/venv"
 	"github.com/google/inverting-proxy/zz_verif/vh"
 	"github.com/google/inverting-proxy/zz_verif/vs"
@@ -23,10 +24,11 @@ import (
 )
 
 type world struct {
-	handler http.Handler
-	served  int
-	lists   [][]string
-	fetched map[string]string // request id -> token of the request it carried
+	cancelled bool
+	handler   http.Handler
+	served    int
+	lists     [][]string
+	fetched   map[string]string // request id -> token of the request it carried
 }
 
 func tok(i int) string { return fmt.Sprintf("tok%d", i) }
@@ -39,7 +41,12 @@ func bodyFor(i, size int) string {
 }
 
 func scenario(name string, K, P int, sizes []int, pb int) vx.Scenario {
+	return scenarioC(name, K, P, sizes, pb, false)
+}
+
+func scenarioC(name string, K, P int, sizes []int, pb int, cancelFirst bool) vx.Scenario {
 	return vx.Scenario{
+		// the cancellation scenarios have two more threads; they are explored delay-bounded
 		Name: name, PB: pb, MaxSteps: 5000,
 		Setup: func(s *vs.Sched) func(*vs.Result) vx.Exec {
 			w := &world{fetched: map[string]string{}}
@@ -58,8 +65,33 @@ func scenario(name string, K, P int, sizes []int, pb int) vx.Scenario {
 				recs[i] = vh.NewRec()
 				s.Thread(fmt.Sprintf("client%d", i), func() {
 					vh.Until("handler", unsafe.Pointer(w), func() bool { return w.handler != nil })
+					if cancelFirst && i > 0 {
+						// the later clients arrive after the first one has given up
+						vh.Until("client0 gave up", unsafe.Pointer(w), func() bool { return w.cancelled })
+					}
 					r := httptest.NewRequest("POST", "/"+tok(i)+"?q="+tok(i), strings.NewReader(bodyFor(i, sizes[i%len(sizes)])))
 					r.Header.Set("X-Tok", tok(i))
+					// every client carries the same value in the usual correlation headers
+					r.Header.Set("X-Request-Id", "same-for-everyone")
+					r.Header.Set("X-Correlation-Id", "same-for-everyone")
+					if cancelFirst && i == 0 {
+						ctx, cancel := vctx.WithCancel(r.Context())
+						r = r.WithContext(ctx)
+						vs.Go(func() {
+							// the first client gives up once the agent has fetched its request
+							vh.Until("client0's request was fetched", unsafe.Pointer(w), func() bool {
+								for _, t := range w.fetched {
+									if t == tok(0) {
+										return true
+									}
+								}
+								return false
+							})
+							cancel()
+							vs.Touch(unsafe.Pointer(w))
+							w.cancelled = true
+						})
+					}
 					w.handler.ServeHTTP(recs[i], r)
 				})
 			}
@@ -87,7 +119,7 @@ func scenario(name string, K, P int, sizes []int, pb int) vx.Scenario {
 					}
 				})
 			}
-			return func(r *vs.Result) vx.Exec { return judge(w, r, recs, K, sizes) }
+			return func(r *vs.Result) vx.Exec { return judge(w, r, recs, K, sizes, cancelFirst) }
 		},
 	}
 }
@@ -128,7 +160,7 @@ func worker(w *world, id string) {
 	w.handler.ServeHTTP(vh.NewRec(), r2)
 }
 
-func judge(w *world, r *vs.Result, recs []*vh.Rec, K int, sizes []int) vx.Exec {
+func judge(w *world, r *vs.Result, recs []*vh.Rec, K int, sizes []int, cancelFirst bool) vx.Exec {
 	var x vx.Exec
 	var obs strings.Builder
 	for _, p := range r.Panics {
@@ -141,6 +173,9 @@ func judge(w *world, r *vs.Result, recs []*vh.Rec, K int, sizes []int) vx.Exec {
 		x.Violations = append(x.Violations, fmt.Sprintf("EXIT: proxy exited with code %d: %v", r.ExitCode, venv.Hooks.FatalLog))
 	}
 	for _, b := range r.Blocked {
+		if cancelFirst && strings.HasPrefix(b.Thread, "client0") {
+			continue
+		}
 		if !b.Daemon && strings.HasPrefix(b.Thread, "client") && len(r.Panics) == 0 && !r.Horizon {
 			x.Violations = append(x.Violations, fmt.Sprintf("HANG: %s never received a response (blocked in %s)", b.Thread, b.Op))
 		}
@@ -150,6 +185,9 @@ func judge(w *world, r *vs.Result, recs []*vh.Rec, K int, sizes []int) vx.Exec {
 		fmt.Fprintf(&obs, "c%d:%d/%s/%s/%s|", i, rec.Code, rec.Hdr.Get("X-Tok"), vh.Short(rec.Body.String()), rec.Trailers().Get("X-Tr"))
 		if !rec.Wrote {
 			continue // reported as HANG above if the client is blocked
+		}
+		if cancelFirst && i == 0 {
+			continue // the client that gave up may or may not have got its answer in time
 		}
 		want := "echo:/" + t + ":" + bodyFor(i, sizes[i%len(sizes)])
 		if rec.Code != 200+i {
@@ -193,7 +231,7 @@ func judge(w *world, r *vs.Result, recs []*vh.Rec, K int, sizes []int) vx.Exec {
 		}
 	}
 	if len(r.Blocked) == 0 || allDaemonOrPollers(r) {
-		if total != K && len(x.Violations) == 0 && !r.Horizon {
+		if total != K && len(x.Violations) == 0 && !r.Horizon && !cancelFirst {
 			x.Violations = append(x.Violations, fmt.Sprintf("LOSTID: %d clients but %d ids listed", K, total))
 		}
 	}
@@ -227,11 +265,14 @@ func main() {
 					scenario("K2P2", 2, 2, []int{1, 0}, 2),
 					scenario("K3P1", 3, 1, []int{0, 1, 5000}, 2),
 					scenario("K3P2", 3, 2, []int{5000, 0, 1}, 2),
+					scenarioC("K2P1-first-client-cancels", 2, 1, []int{10, 10}, 3, true),
+					scenarioC("K3P1-first-client-cancels", 3, 1, []int{10, 0, 10}, 0, true),
 				}
 			}
 			return []vx.Scenario{
 				scenario("K2P1", 2, 1, []int{0, 5000}, 2),
 				scenario("K2P2", 2, 2, []int{1, 0}, 1),
+				scenarioC("K2P1-first-client-cancels", 2, 1, []int{10, 10}, 2, true),
 			}
 		},
 	})
